@@ -105,6 +105,10 @@ class FakeWorker:
 
     def enqueue(self, x):
         self.env.enq_try.append((self.k, x))
+        if len(self.env.enq_try) > 20000:
+            # the pool keeps offering work for ever (a re-dispatch loop that makes no progress): flag it; the escape is
+            # raised from the fake time.sleep inside the pool's bare `except:` handler (see run_script)
+            self.env.livelock = True
         if not self.env.alive[self.k]:
             raise WorkerClosedError(self)
         self.env.inbox[self.k].append(x)
